@@ -75,7 +75,7 @@ package aws
 // in plain ASG mode the only write is SetDesiredCapacity(current + delta), so capacity is never lowered.
 //@ func (*NodeGroup).IncreaseSize(n, delta) (err)
 //@   requires asgOK(n) && n.provider.ec2Service != nil
-//@   modifies Jlen, Jkind, Jname, Jnum, Jok, ATTs, TERMs, n.terminateInstancesTries
+//@   modifies Jlen, Jkind, Jname, Jnum, Jok, Jaux, ATTs, TERMs, n.terminateInstancesTries
 //@   ensures Jlen >= old(Jlen) && ajprefix(old(Jlen))
 //@   ensures [C17,C04] delta <= 0 || desired(n) + delta > amax(n) ==> err != nil && Jlen == old(Jlen)
 //@   ensures [C17] n.config.AWSConfig.LaunchTemplateID == "" && delta > 0 && desired(n) + delta <= amax(n) ==> Jlen == old(Jlen) + 1 && Jkind[old(Jlen)] == A_SETDESIRED && Jname[old(Jlen)] == n.id && Jnum[old(Jlen)] == desired(n) + delta && Jnum[old(Jlen)] > desired(n) && Jok[old(Jlen)] == (err == nil)
@@ -194,3 +194,12 @@ package aws
 //@   modifies elems(instanceIds)
 //@   invariant len(instanceIds) == #i && base(instanceIds) == entry(base(instanceIds)) && off(instanceIds) == 0 && cap(instanceIds) == len(batch)
 //@   invariant forall j :: 0 <= j && j < #i ==> instanceIds[j] == deref(batch[j])
+
+// The fleet path below IncreaseSize is not yet verified function by function: setASGDesiredSizeOneShot
+// is used through this ASSUMED contract (listed as trusted in the evidence). It only says what
+// IncreaseSize needs: the journal grows, earlier events are untouched, no SetDesiredCapacity is issued.
+//@ assume func (*NodeGroup).setASGDesiredSizeOneShot(n, addCount) (err)
+//@   requires asgOK(n) && n.provider.ec2Service != nil && addCount > 0
+//@   modifies Jlen, Jkind, Jname, Jnum, Jok, Jaux, ATTs, TERMs, n.terminateInstancesTries
+//@   ensures Jlen >= old(Jlen) && ajprefix(old(Jlen))
+//@   ensures forall k :: old(Jlen) <= k && k < Jlen ==> Jkind[k] != A_SETDESIRED
